@@ -1,5 +1,5 @@
 (** Props/C07.v — runErrors records every step failure exactly once and accurately. *)
-From PV Require Import Engine EngineProofs.
+From PV Require Import Engine EngineProofs Ctl Control CtlProofs.
 Open Scope string_scope.
 Notation RG := (list val -> option string -> option string -> st -> R).
 Notation RP := (string -> option (list string) -> option (list val) -> option string -> option string -> st -> R).
@@ -89,6 +89,19 @@ Theorem C07_instruction_adds_nothing : forall (rg : RG) (rp : RP) sp k s sg s1,
   cond rg rp sp k s = (ORaise (RSig sg), s1).
 Proof. exact cond_signal. Qed.
 Print Assumptions C07_instruction_adds_nothing.
+
+(** * Tie B: WHEN an error is recorded, read from the source.
+    In the generated [Step.run_conditional_decorators] an error that reaches the decorator layer
+    is passed to [save_error] exactly when it is not a HandledError (i.e. was not already recorded
+    further in) and never when it is an instruction; the generated term is the model's [cond]
+    (see C04_source_decorators_are_model), and [invoke] is the generated [Step.invoke_step]. *)
+Theorem C07_source_recording_is_model : forall (rg : RG) (rp : RP) sp k s,
+  gen_run_conditional_decorators sp (run_body rp sp) rg (reset_prim sp k)
+    (fun rc => retry_loop rg rp rc sp k) (save_error_prim sp) s
+  = cond rg rp sp k s
+  /\ gen_invoke_step (run_body rp sp) rg (reset_prim sp k) s = invoke rg rp sp k s.
+Proof. intros. split; [apply gen_run_conditional_decorators_is_model|apply gen_invoke_step_is_model]. Qed.
+Print Assumptions C07_source_recording_is_model.
 
 (** * Non-vacuity: failure two calls deep, both callers swallow / retry *)
 Definition S (nm : string) (b : body) (inn : dict) (sw : val) (rt : option rcfg) (oe : option val) : step :=
